@@ -105,6 +105,9 @@ fn main() {
         Some("c08big") => {
             match search::check_c08big(args[2].parse().unwrap(), args[3].parse().unwrap()) { Ok(s) => println!("OK {}", s), Err(s) => { println!("MISMATCH {}", s); std::process::exit(1); } }
         }
+        Some("c08table") => {
+            match search::check_c08table(args[2].parse().unwrap(), args[3] == "1") { Ok(s) => println!("OK {}", s), Err(s) => { println!("MISMATCH {}", s); std::process::exit(1); } }
+        }
         Some("c08big-search") => { std::process::exit(search::c08big_search()); }
         Some("c06") => {
             // replay c06 <combo:weight,...>
